@@ -1,5 +1,8 @@
 import GcArena.Proofs.Quiet
 import GcArena.Props.C18
+import GcArena.Props.C01
+import GcArena.Props.C02
+import GcArena.Props.C04
 /-!
 # C11 — Panic safety: a panic at any point leaves the arena consistent and usable
 
@@ -64,7 +67,12 @@ theorem root_fault_keeps_flag (c : Ctx) (root : List Slot) (j : Nat) (hg : c.gra
 
 /-- A callback that panics at any point (the prefix of its operations, then `leave`) preserves the
     invariant: every sanctioned store path is barrier-before-store or an atomic store+barrier, so
-    there is no point inside a callback at which the invariant is broken. -/
+    there is no point inside a callback at which the invariant is broken.
+    NB: this is `inv_run` verbatim — `body` is unconstrained, so it is any prefix of any callback of
+    any kind (`.enter k` is simply a member of `pre`), and "panic" is nothing but "the callback ends
+    here".  What the property asks of the state after the unwind is spelled out below:
+    `after_unwind_continues` (C01, C03–C05 on every continuation), `after_unwind_exact_reclamation`
+    (C02), `failed_ctor_releases_all` (a failed owning callback). -/
 theorem callback_panic_preserves_inv (n : Nat) (pre body : List Op)
     (halive : ((Arena.new n).run (pre ++ body ++ [.leave])).alive = true) :
     Inv ((Arena.new n).run (pre ++ body ++ [.leave])) :=
@@ -83,6 +91,112 @@ theorem reachable_survives_faults (n : Nat) (ops : List Op)
   obtain ⟨o, ho, hl, _⟩ := (inv_run n ops halive).safe_of_accessible hi
   exact ⟨o, ho, hl⟩
 
+/-! ### After the unwind: C01–C05 on the continued history, and failed owning callbacks -/
+
+private theorem run_append (a : Arena) (o1 o2 : List Op) : a.run (o1 ++ o2) = (a.run o1).run o2 := by
+  induction o1 generalizing a with
+  | nil => rfl
+  | cons op o1 ih => simp only [List.cons_append, Arena.run]; exact ih _
+
+private theorem cb_after_leave (b : Arena) (hal : (b.step .leave).1.alive = true) :
+    (b.step .leave).1.cb = none := by
+  unfold Arena.step at hal ⊢
+  split
+  · rename_i hd
+    rw [if_pos hd] at hal
+    simp only [Arena.bad] at hal
+    simp [hal] at hd
+  · simp only [Arena.stepBody]
+    split
+    · rename_i hn
+      simp only [Arena.bad]
+      cases hc : b.cb with
+      | none => rfl
+      | some k => simp [hc] at hn
+    · rfl
+
+/-- The state right after a callback of kind `k` unwound having performed `body` (any operations a
+    callback can perform — also none, also rejected ones). -/
+def afterUnwind (n : Nat) (pre : List Op) (k : CbKind) (body : List Op) : Arena :=
+  (Arena.new n).run (pre ++ [.enter k] ++ body ++ [.leave])
+
+theorem afterUnwind_cb (n : Nat) (pre : List Op) (k : CbKind) (body : List Op)
+    (hal : (afterUnwind n pre k body).alive = true) : (afterUnwind n pre k body).cb = none := by
+  unfold afterUnwind at hal ⊢
+  rw [run_append] at hal ⊢
+  simp only [Arena.run] at hal ⊢
+  exact cb_after_leave _ hal
+
+/-- **After the unwind of a panicking callback of each kind** (`mutate`, `mutate_root` = also
+    `map_root` / `try_map_root` / the constructor of `new` / `try_new`, `finalize`), at any point
+    `body` of the callback, on any earlier history `pre`, and through every continuation `cont` —
+    more callbacks, more panics, collection calls, faults in `trace` — the arena, while it exists:
+    * satisfies the invariant and has tripped no internal assertion;
+    * C01: everything the client can name is allocated, undestructed, not condemned;
+    * C04: nothing has been destructed or released twice, every release follows the destruction;
+    * C05: `is_dropped` is exact for every allocated object;
+    * C03/C04: every id ever handed out is still allocated or logged as released. -/
+theorem after_unwind_continues (n : Nat) (pre : List Op) (k : CbKind) (body cont : List Op) :
+    let b := (afterUnwind n pre k body).run cont
+    b.alive = true →
+    Inv b ∧ b.ctx.err = none ∧
+    (∀ i, Accessible b i → Safe b.ctx i) ∧
+    (b.ctx.log.Nodup ∧ ∀ i, Event.freed i ∈ b.ctx.log → Event.dropped i ∈ b.ctx.log) ∧
+    (∀ i o, b.ctx.heap.get i = some o → (o.live = false ↔ Event.dropped i ∈ b.ctx.log)) ∧
+    (∀ i, i < b.ctx.heap.size → (∃ o, b.ctx.heap.get i = some o) ∨ Event.freed i ∈ b.ctx.log) := by
+  intro b hal
+  have hb : b = (Arena.new n).run (pre ++ [.enter k] ++ body ++ [.leave] ++ cont) := by
+    show (afterUnwind n pre k body).run cont = _
+    unfold afterUnwind
+    rw [← run_append]
+  rw [hb] at hal ⊢
+  exact ⟨inv_run n _ hal, C01.no_internal_fault n _ hal, fun i hi => C01.not_condemned n _ hal i hi,
+    C04.once n _, fun i o ho => C04.is_dropped_exact n _ i o ho, fun i hi => C04.nothing_unaccounted n _ i hi⟩
+
+/-- C02 at the post-unwind state: the next two `finish_cycle` calls leave undestructed exactly what
+    is strongly reachable from the root as the unwound callback left it — no reachable value was
+    lost to the panic, all garbage (including what the callback allocated and dropped) goes. -/
+theorem after_unwind_exact_reclamation (n : Nat) (pre : List Op) (k : CbKind) (body : List Op) :
+    let a := afterUnwind n pre k body
+    a.alive = true →
+    let a2 := a.run [.collect .finishCycle .drop none none, .collect .finishCycle .drop none none]
+    a2.alive = true ∧ a2.root = a.root ∧
+    ∀ i, (∃ o, a2.ctx.heap.get i = some o ∧ o.live = true) ↔ StrongReach a i := by
+  intro a hal
+  exact C02.exactness_run n _ hal (afterUnwind_cb n pre k body hal)
+
+/-- The callbacks that own the root while they run; a failure of any of them drops the arena. -/
+inductive OwningCallback where
+  | newCtorPanic      -- the constructor passed to `Arena::new` panics
+  | tryNewErr         -- the constructor passed to `Arena::try_new` returns `Err` (or panics)
+  | mapRootPanic      -- the callback of `Arena::map_root` panics
+  | tryMapRootErr     -- the callback of `Arena::try_map_root` returns `Err` (or panics)
+  deriving DecidableEq, Repr
+
+/-- How the protocol records each of them (Model/Parse.lean, harness `exec.rs`): `enter new_ctor` /
+    `try_new_err` / `map_root` / `try_map_root_err` are all `mutate_root` for the collector; the body;
+    `leave` (or `leave panic`); then `droparena` (`arena_gone`). -/
+def OwningCallback.enter : OwningCallback → Op := fun _ => .enter .mutateRoot
+
+/-- **A failed `Arena::new` / `try_new` / `map_root` / `try_map_root` releases everything.**  For
+    each of the four owning callbacks, after any history `pre` (empty for the constructors), any
+    `body` of the failing callback: once the arena has been dropped, every id ever allocated —
+    before or inside the callback — has exactly one `dropped` and exactly one `freed` event, no
+    block is allocated any more and `total_gc_count` reads zero. -/
+theorem failed_ctor_releases_all (n : Nat) (pre body : List Op) (k : OwningCallback) :
+    let a := (Arena.new n).run (pre ++ [k.enter] ++ body ++ [.leave])
+    let a' := (a.step .dropArena).1
+    a.alive = true →
+    a'.alive = false ∧ a'.ctx.metrics.totalGcs = 0 ∧ (∀ j, a'.ctx.heap.get j = none) ∧
+    ∀ i, i < a.ctx.heap.size →
+      a'.ctx.log.count (.dropped i) = 1 ∧ a'.ctx.log.count (.freed i) = 1 := by
+  intro a a' hal
+  have hcb : a.cb = none := afterUnwind_cb n pre .mutateRoot body hal
+  obtain ⟨h1, _, h3, h4, h5, h6⟩ := C04.drop_arena n _ hal hcb
+  refine ⟨h3, h1, h4, fun i hi => ?_⟩
+  obtain ⟨hf, hd⟩ := h5 i hi
+  exact ⟨by rw [List.Nodup.count h6, if_pos hd], by rw [List.Nodup.count h6, if_pos hf]⟩
+
 /-! ### Non-vacuity: a fault in the middle of marking, then the cycle completes -/
 
 def demo : List Op := [
@@ -96,6 +210,16 @@ example : ((Arena.new 2).run demo).alive = true := by decide
 example : ((Arena.new 2).run (demo.take 6)).ctx.grayAgain = [1] := by decide
 example : ((Arena.new 2).run demo).ctx.log = [] := by decide
 example : ((Arena.new 2).run demo).ctx.phase = .sleep := by decide
+
+/-- A constructor that allocates two objects, links them, and then fails: everything goes. -/
+example :
+    let a := (Arena.new 1).run ([] ++ [OwningCallback.tryNewErr.enter] ++
+      [.alloc true [none], .alloc true [some (.strong 0)], .rootStore 0 (some (.strong 1))] ++ [.leave])
+    a.alive = true ∧ a.ctx.heap.size = 2 ∧
+      ((a.step .dropArena).1.ctx.log.count (.dropped 0) = 1 ∧ (a.step .dropArena).1.ctx.log.count (.freed 0) = 1) :=
+  ⟨by decide, by decide,
+    (failed_ctor_releases_all 1 [] [.alloc true [none], .alloc true [some (.strong 0)],
+      .rootStore 0 (some (.strong 1))] .tryNewErr (by decide)).2.2.2 0 (by decide)⟩
 
 /-! ### The builder clause: a panicking element constructor, at every index
 
